@@ -199,6 +199,29 @@ impl SameBits for f64 { fn bits(self) -> u64 { self.to_bits() } }
 fn same_bits<T: SameBits>(a: T, b: T) -> bool { a.bits() == b.bits() }
 fn always(_b: &[u8], _big: bool) -> bool { true }
 
+// ---- probe seed: records the state of the NESTED deserializer a container mechanism hands to the element /
+// field / payload seed, then decodes a T through it.  In these harnesses D is always `&mut dbus::Deserializer<Fd0>`
+// (asserted on the size, read through a pointer cast) -- this makes "the child is created at the parent's
+// position, under the right signature, WITH THE PARENT'S CONTAINER DEPTHS" an obligation instead of an assumption.
+#[derive(Clone, Copy)]
+struct ChildState { depths: (u8, u8, u8), pos: usize, sig: *const Signature, position: usize }
+struct PeekSeed<'p, T> { out: &'p core::cell::Cell<Option<ChildState>>, _t: core::marker::PhantomData<T> }
+impl<'p, T> PeekSeed<'p, T> {
+    fn new(out: &'p core::cell::Cell<Option<ChildState>>) -> Self { PeekSeed { out, _t: core::marker::PhantomData } }
+}
+impl<'de, 'p, T: serde::Deserialize<'de>> DeserializeSeed<'de> for PeekSeed<'p, T> {
+    type Value = T;
+    fn deserialize<D: serde::Deserializer<'de>>(self, d: D) -> core::result::Result<T, D::Error> {
+        assert!(core::mem::size_of::<D>() == core::mem::size_of::<&mut De<'de>>());
+        {
+            let child: &De<'de> = unsafe { &**(&d as *const D as *const &mut De<'de>) };
+            self.out.set(Some(ChildState { depths: counters(&child.0.container_depths), pos: child.0.pos,
+                                           sig: child.0.signature as *const Signature, position: child.0.ctxt.position() }));
+        }
+        T::deserialize(d)
+    }
+}
+
 // @unit C03.de_u8 props=C03,C04,C02 kind=bounded bound=buffer<=12 fn=<&mut.zvariant::dbus::Deserializer.as.serde::Deserializer>::deserialize_u8,zvariant::de::DeserializerCommon::next_const_size_slice stubs=C03.parse_padding timeout=600
 fixed_unit!(c03_de_u8__n12, 12, u8, 1, |b, _| b[0], always, "C03.de_u8.ok_iff_valid_encoding", "C03.de_u8.value", "C03.de_u8.consumed");
 // @unit C03.de_bool props=C03,C04,C02 kind=bounded bound=buffer<=12 fn=<&mut.zvariant::dbus::Deserializer.as.serde::Deserializer>::deserialize_bool stubs=C03.parse_padding timeout=600
@@ -496,7 +519,13 @@ macro_rules! array_next_unit {
             kani::assume(start <= pos0 && alen <= u32::MAX as usize);
             let end = start + alen;
             let mut ad = ArrayDeserializer { de: &mut de, len: alen, start, element_alignment: $size, array_signature: $arr };
-            let r = ad.next_element(core::marker::PhantomData::<$ty>);
+            let cell = core::cell::Cell::new(None);
+            let r = ad.next_element(PeekSeed::<$ty>::new(&cell));
+            if let Some(c) = cell.get() {
+                let c: ChildState = c;
+                assert!(c.depths == (s0, a0, v0), "C07.array_next.nested_inherits_parent_depth_incl_this_array");
+                assert!(core::ptr::eq(c.sig, $child), "C03.array_next.nested_signature_is_element_signature");
+            }
             let p = spec_pad(position + pos0, $size);
             let present = spec_zero_padding(bytes, pos0, p) && pos0 + p + $size <= len;
             let decode_fn: fn(&[u8], bool) -> $ty = $decode;
@@ -664,7 +693,17 @@ fn c03_struct_field__n12() {
     let field_idx: usize = kani::any();
     kani::assume(field_idx <= 2);
     let mut sd = StructureDeserializer { de: &mut de, field_idx, num_fields: 2 };
-    let r = sd.next_element_seed(core::marker::PhantomData::<i32>);
+    let cell = core::cell::Cell::new(None);
+    let r = sd.next_element_seed(PeekSeed::<i32>::new(&cell));
+    if field_idx < 2 {
+        let seen: Option<ChildState> = cell.get();
+        obl!("C07.struct_field.nested_deserializer_created", seen.is_some());
+        if let Some(c) = seen {
+            obl!("C07.struct_field.nested_inherits_parent_depth_incl_this_structure", c.depths == (s0, a0, v0));
+            obl!("C03.struct_field.nested_signature_is_field_k", core::ptr::eq(c.sig, if field_idx == 0 { &SIG_I } else { &SIG_H }));
+            obl!("C03.struct_field.nested_starts_at_parent_position", c.pos == pos0 && c.position == position);
+        }
+    }
     let p = spec_pad(position + pos0, 4);
     let present = spec_zero_padding(bytes, pos0, p) && pos0 + p + 4 <= len;
     let word = if present { spec_u32(&bytes[pos0 + p..pos0 + p + 4], big) } else { 0 };
@@ -755,7 +794,12 @@ macro_rules! value_payload_unit {
             let mut vd = ValueDeserializer { de: &mut de, stage: ValueParseStage::Value, sig_start };
             // the seed reads a u64 directly (what `u64::deserialize` does): this observes the inner deserializer's
             // alignment base and position accounting without pulling the whole deserialize_any dispatch into the unit
-            let r = vd.next_element_seed(core::marker::PhantomData::<u64>);
+            let cell = core::cell::Cell::new(None);
+            let r = vd.next_element_seed(PeekSeed::<u64>::new(&cell));
+            if let Some(c) = cell.get() {
+                let c: ChildState = c;
+                assert!(c.depths == (s0, a0, v0 + 1), "C07.value_payload.nested_depth_counts_this_variant");
+            }
             // expected: single-byte signature y/u/t, payload aligned on the ABSOLUTE position
             let code = bytes[sig_start + 1];
             let size: usize = if l == 1 && code == $code { $size } else { 0 };
